@@ -67,6 +67,10 @@ SliceAx(n, m, center) == LET st == IF center THEN (n - m) \div 2 ELSE 0 IN {<<o,
 \* Python slice(start, stop, step) with positive step on an axis of n pixels: start, start + step, ... < stop  (SplitOperator)
 PySlice(n, start, stop, step) == LET sel == {i \in 0..(n - 1) : i >= start /\ i < stop /\ (i - start) % step = 0} IN
                                  {<<Cardinality({j \in sel : j < i}), i, Z(1), 0>> : i \in sel}
+\* FFTShiftOperator (numpy.fft.fftshift) on an array of shape (n1, n2) along the flagged axes: entry i of an axis of n pixels moves to (i + n div 2) mod n
+FftShift(n1, n2, a1, a2) == {<<(IF a1 = 1 THEN Mod(i + (n1 \div 2), n1) ELSE i) * n2 + (IF a2 = 1 THEN Mod(j + (n2 \div 2), n2) ELSE j), i * n2 + j, Z(1), 0>> : i \in 0..(n1 - 1), j \in 0..(n2 - 1)}
+\* Multifield2Vector: the entries of the keys in key order, each in C order (keys "a" with na pixels, "b" with shape (nb1, nb2))
+Mf2Vec(na, nb1, nb2) == {<<i, i, Z(1), 0>> : i \in 0..(na + nb1 * nb2 - 1)}
 \* ---- instances ---------------------------------------------------------------------------------------------------
 Dists == {Z(1), R(1, 2)}
 Instances ==
@@ -94,11 +98,16 @@ Instances2 ==
                             n \in 2..6, m \in 1..6, c \in BOOLEAN}
     [] Kind = "pyslice" -> {[op |-> "pyslice", shape |-> <<n, a, b, st>>, dist |-> <<Z(1)>>, pts |-> <<>>, nout |-> Cardinality(PySlice(n, a, b, st)), nin |-> n, ent |-> PySlice(n, a, b, st)] :
                             n \in 3..6, a \in 0..2, b \in 2..6, st \in 1..3}
+    [] Kind = "fftshift" -> {[op |-> "fftshift", shape |-> <<n1, n2, a1, a2>>, dist |-> <<Z(1)>>, pts |-> <<>>, nout |-> n1 * n2, nin |-> n1 * n2, ent |-> FftShift(n1, n2, a1, a2)] :
+                               n1 \in 2..5, n2 \in 1..4, a1 \in {0, 1}, a2 \in {0, 1}}
+    [] Kind = "mf2vec" -> {[op |-> "mf2vec", shape |-> <<na, nb1, nb2>>, dist |-> <<Z(1)>>, pts |-> <<>>, nout |-> na + nb1 * nb2, nin |-> na + nb1 * nb2, ent |-> Mf2Vec(na, nb1, nb2)] :
+                             na \in 1..3, nb1 \in 1..2, nb2 \in 1..3}
     [] OTHER -> {}
 Valid(i) == CASE i.op = "regrid" -> i.shape[2] <= i.shape[1]
               [] i.op = "zeropad" -> i.shape[2] >= i.shape[1]
               [] i.op = "slice" -> i.shape[2] <= i.shape[1]
               [] i.op = "pyslice" -> i.shape[3] <= i.shape[1] /\ i.shape[2] < i.shape[3]
+              [] i.op = "fftshift" -> i.shape[3] + i.shape[4] >= 1 /\ (i.shape[2] = 1 => i.shape[4] = 0)
               [] OTHER -> TRUE
 Init == inst \in {i \in Instances \cup Instances2 : Valid(i)}
 Next == UNCHANGED inst
@@ -110,15 +119,22 @@ Row(o) == {e \in inst.ent : e[1] = o}
 \* (the 4th component of an entry tells the corners of a cell apart: two corners may wrap onto the same pixel and are then added up)
 RowSumsOne == inst.op \in {"interp1", "interp2", "regrid"} => \A o \in 0..(inst.nout - 1) : SumW(Row(o)) = Z(1)
 InRange == \A e \in inst.ent : e[1] \in 0..(inst.nout - 1) /\ e[2] \in 0..(inst.nin - 1)
-PartialPermutation == inst.op \in {"mask", "zeropad", "transpose", "valins", "dtins", "slice", "pyslice"} =>
+PartialPermutation == inst.op \in {"mask", "zeropad", "transpose", "valins", "dtins", "slice", "pyslice", "fftshift", "mf2vec"} =>
                         /\ \A e \in inst.ent : e[3] = Z(1)
                         /\ \A a, b \in inst.ent : a[1] = b[1] => a = b                      \* every output entry has one source
-                        /\ (inst.op \in {"mask", "transpose", "slice", "pyslice", "valins", "dtins"} => \A a, b \in inst.ent : a[2] = b[2] => a = b)
+                        /\ (inst.op \in {"mask", "transpose", "slice", "pyslice", "valins", "dtins", "fftshift", "mf2vec"} => \A a, b \in inst.ent : a[2] = b[2] => a = b)
 \* a transposition is a permutation: every input and every output index occurs exactly once
-IsPermutation == inst.op = "transpose" => {e[1] : e \in inst.ent} = 0..(inst.nout - 1) /\ {e[2] : e \in inst.ent} = 0..(inst.nin - 1)
+IsPermutation == inst.op \in {"transpose", "fftshift", "mf2vec"} => {e[1] : e \in inst.ent} = 0..(inst.nout - 1) /\ {e[2] : e \in inst.ent} = 0..(inst.nin - 1)
 \* a python slice selects ceil((stop - start) / step) pixels (clipped to the axis)
 SliceLength == inst.op = "pyslice" => LET n == inst.shape[1]  a == inst.shape[2]  b == inst.shape[3]  st == inst.shape[4] IN
                                       inst.nout = ((b - a) + st - 1) \div st
+\* shifting twice along an axis of even length is the identity; along an odd axis it is a rotation by n - 1 (fftshift is not its own inverse)
+ShiftTwice == inst.op = "fftshift" =>
+                LET n1 == inst.shape[1]  n2 == inst.shape[2]  a1 == inst.shape[3]  a2 == inst.shape[4]
+                    img(k) == (CHOOSE e \in inst.ent : e[2] = k)[1] IN
+                \A k \in 0..(inst.nin - 1) :
+                    LET i == k \div n2  j == k % n2 IN
+                    img(img(k)) = (IF a1 = 1 THEN Mod(i + 2 * (n1 \div 2), n1) ELSE i) * n2 + (IF a2 = 1 THEN Mod(j + 2 * (n2 \div 2), n2) ELSE j)
 MaskOrder == inst.op = "mask" => \A a, b \in inst.ent : a[2] < b[2] => a[1] < b[1]
 NonNegWeights == inst.op \in {"interp1", "interp2"} => \A e \in inst.ent : ~RLt(e[3], Z(0))
 TurnsInRange == inst.op \in {"nufft1", "nufft2"} => \A e \in inst.ent : ~RLt(e[3], Z(0)) /\ RLt(e[3], Z(1))
